@@ -17,6 +17,9 @@ event tokens (python side; the third field of `v:` is the concrete accessory mod
                   call_soon callback, in this order) and only then is the loop run to quiescence; a part `.` lets one bare
                   loop iteration pass between two actions.  Parts: e g c s d x X p.  The Lean model has no such event: a
                   history is compared with the model only up to its first composite event.
+                  A part a:<dt> lets dt units of virtual time pass INSIDE the composite event WITHOUT running the loop to
+                  quiescence afterwards: the parts after it are issued in the loop iterations that follow the instant t+dt
+                  (a close that lands in the k-th iteration of a retry the connector makes by itself after its back-off).
 
 session / browser tokens (no model event either; a history is tied to the model up to the first of them):
   r:<id>:<api>:<own|->   a caller enters a public request of IpPairing: g get_characteristics, w put_characteristics,
@@ -35,6 +38,9 @@ session / browser tokens (no model event either; a history is tied to the model 
 pairing-record variants (`record=` of run_scenario, table RECORDS): the stored pairing data is damaged / altered the way a
 hand-edited or half-written pairing file is, so that the secure-session setup fails with each exception class at each local
 step (or, for the benign variants, must still succeed).
+
+subscriptions (`subs=` of run_scenario): the characteristics the application subscribed to in an earlier session (default: (1, 9));
+every new session re-subscribes to them, one request per accessory id; `[]` = none (no re-subscription at all).
 """
 from __future__ import annotations
 
@@ -202,8 +208,8 @@ def description(hosts):
 
 
 async def settle(loop):
-    """run the loop until nothing is ready at the current virtual instant"""
-    for _ in range(10000):
+    """run the loop until nothing is ready at the current virtual instant; returns the number of loop iterations that took"""
+    for n_ in range(10000):
         await asyncio.sleep(0)
         if loop._ready:
             continue
@@ -214,7 +220,7 @@ async def settle(loop):
             live = [h for h in loop._scheduled if not h._cancelled and h._when <= loop.time()]
             if live:
                 continue
-        return
+        return n_ + 1
     raise RuntimeError("event loop does not settle")
 
 
@@ -228,6 +234,7 @@ class Sim:
         self.model_events = []   # the events as the model is given them (some harness events map to a model event decided at run time)
         self.stats = {}
         self.model_upto = None   # the history can be compared with the model only up to this event index (None = all of it)
+        self.iters = []          # per event: loop iterations until the loop came to rest after the event's action
 
 
 def new_tokens(events):
@@ -243,7 +250,7 @@ def _run(hosts, events, seed, subs=None, family="v4", record=None):
     asyncio.set_event_loop(loop)
     sim = Sim()
     try:
-        loop.run_until_complete(_scenario(loop, sim, hosts, events, seed, record))
+        loop.run_until_complete(_scenario(loop, sim, hosts, events, seed, record, subs))
     except asyncio.CancelledError:
         # the watchdog of _scenario: a call the harness made into the library (a request, close()) did not return within 600
         # virtual seconds - a library that blocks for ever must be reported, not hang the check
@@ -252,9 +259,9 @@ def _run(hosts, events, seed, subs=None, family="v4", record=None):
         if sim.model_upto is None:
             sim.model_upto = len(sim.lines)
     except RuntimeError as e:
-        if str(e) != "event loop does not settle" or not (record is not None or any("+" in ev or ev.startswith("g:") for ev in events) or new_tokens(events)):
+        if str(e) != "event loop does not settle":
             raise
-        # (new streams only) the library keeps the loop busy without time passing: that is the busy loop C10 excludes, not a harness error
+        # the library keeps the loop busy without time passing: that is the busy loop C10 excludes, not a harness error
         sim.problems.append(("busy-loop", f"after {events[len(sim.lines)] if len(sim.lines) < len(events) else '?'}: the event loop does not come to rest at t={loop.time():.3f}s (10000 iterations without quiescence)"))
         if sim.model_upto is None:
             sim.model_upto = len(sim.lines)
@@ -271,8 +278,8 @@ def _run(hosts, events, seed, subs=None, family="v4", record=None):
     return sim
 
 
-def run_scenario(hosts, events, seed=0, family="v4", record=None):
-    return _run(hosts, events, seed, family=family, record=record)
+def run_scenario(hosts, events, seed=0, family="v4", record=None, subs=None):
+    return _run(hosts, events, seed, subs=subs, family=family, record=record)
 
 
 def now_units(loop):
@@ -280,7 +287,7 @@ def now_units(loop):
     return int(round(u))
 
 
-async def _scenario(loop, sim, hosts, events, seed, record=None):
+async def _scenario(loop, sim, hosts, events, seed, record=None, subs=None):
     rnd = random.Random(seed)
     net = simnet.Net(loop)
     acc = Accessory(loop, net, lambda n: bytes(rnd.randrange(256) for _ in range(n)))
@@ -324,17 +331,39 @@ async def _scenario(loop, sim, hosts, events, seed, record=None):
 
     def on_write(t, data):
         rx[t.index] = rx.get(t.index, 0) + len(data)
+        act[t.index] = now_units(loop)
         orig_handler(t, data)
     net.handler = on_write
 
+    # ---- back-off bookkeeping (C10, lower bound of the delay): what the NETWORK saw of every connection attempt
+    att_log = []             # per TCP connect: t0 (instant it was started), targets, end / out (instant and way the connect ended), tidx (the
+    #                          connection it led to), la_prev (the last instant at which the attempt before it did anything on the network)
+    act = {}                 # connection index -> last instant at which the controller wrote on it, or it was lost
+    hasten = []              # (from, to) instants at which zeroconf reported the device (a legitimate reason to retry at once)
+    resets = []              # instants at which close() / shutdown() was called or returned: whatever is attempted afterwards is a new beginning
+
+    def last_activity(rec):
+        if rec["end"] is None:
+            return None
+        return max(rec["end"], act.get(rec["tidx"], 0)) if rec["tidx"] is not None else rec["end"]
+
     async def start_connection(addr_infos, **kw):
-        raw_attempts.append((now_units(loop), [hidx(a[3]) for a in addr_infos]))
+        rec = {"t0": now_units(loop), "targets": [hidx(a[3]) for a in addr_infos], "end": None, "out": None, "tidx": None, "host": None,
+               "la_prev": last_activity(att_log[-1]) if att_log else None}
+        att_log.append(rec)
+        raw_attempts.append((rec["t0"], rec["targets"]))
         if reach["at"] is not None and not net.connect_outcomes:
             # address-aware network: the connect succeeds iff one of the targeted addresses is one the accessory has
             pick = next((i for i, a in enumerate(addr_infos) if hidx(a[3]) in reach["at"]), None)
             net.connect_outcomes.append("refused" if pick is None else ("ok", pick))
-        sock = await orig_start(addr_infos, **kw)
+        try:
+            sock = await orig_start(addr_infos, **kw)
+        except BaseException as e:  # noqa: BLE001
+            rec["end"], rec["out"] = now_units(loop), "refused" if isinstance(e, OSError) else "gave-up" if isinstance(e, asyncio.CancelledError) else "error"
+            raise
+        rec["end"], rec["out"] = now_units(loop), "ok"
         sock.host = peer_name(sock.host)
+        sock.attempt = rec
         return sock
     net.start_connection = start_connection
     opened = []  # (units, host idx, advertised list) of every TCP connection that was established
@@ -346,6 +375,9 @@ async def _scenario(loop, sim, hosts, events, seed, record=None):
         # list legitimately resets the exclusions ("host change clears exclusions"), so only repeats under the SAME
         # list count as "the same address again"
         opened.append((now_units(loop), hidx(sock.host), tuple(sorted(conn_ref[0].hosts)) if conn_ref else (), n_connectors[0], len(net.transports)))
+        if getattr(sock, "attempt", None) is not None:
+            sock.attempt["tidx"], sock.attempt["host"] = len(net.transports), hidx(sock.host)
+            act[len(net.transports)] = now_units(loop)
         res = await orig_create(factory, sock=sock, **kw)
         accepted[res[0].index] = now_units(loop)
         return res
@@ -421,7 +453,7 @@ async def _scenario(loop, sim, hosts, events, seed, record=None):
         conn_ref.append(conn)
         # the caller subscribed to something in an earlier session: every new session re-subscribes inside connection_made,
         # i.e. while the connector task is still running
-        p.subscriptions.add((1, 9))
+        p.subscriptions.update({(1, 9)} if subs is None else {(int(a_), int(i_)) for a_, i_ in subs})
         orig_lost = simnet.FakeTransport._lost
 
         def lost_hook(t, exc, _orig=orig_lost):
@@ -429,6 +461,8 @@ async def _scenario(loop, sim, hosts, events, seed, record=None):
             was_closing = cur.closing if cur is not None else None
             if not t.closed and t in acc.sessions and acc.sessions[t].secure:
                 losses.append((now_units(loop), t.index, accepted.get(t.index)))
+            if not t.closed:
+                act[t.index] = now_units(loop)
             _orig(t, exc)
             if cur is not None and cur is not t and not was_closing:
                 if cur.closing or conn.transport is not cur:
@@ -499,10 +533,12 @@ async def _scenario(loop, sim, hosts, events, seed, record=None):
                     cstate["inprog"] = cstate.get("inprog", set()) | multi_step_in_progress()
                 if kind == "X":
                     seen_shutdown = True
+                resets.append(now_units(loop))
                 try:
                     await (p.close() if kind == "x" else p.shutdown())
                 except BaseException as e:  # noqa: BLE001
                     close_raised.append(type(e).__name__)
+                resets.append(now_units(loop))
                 if cstate["log"] is not None:
                     cstate["log"].append("R")
                     cstate["att"] = len(raw_attempts)
@@ -517,6 +553,7 @@ async def _scenario(loop, sim, hosts, events, seed, record=None):
                 elif g_[0] in ("s", "d"):
                     new_desc = p.description if g_[0] == "s" else description([int(x) for x in g_[1].split(",")])
                     cstate["log"].append("Z")
+                    hasten.append((now_units(loop), now_units(loop)))
                     try:
                         p._async_description_update(new_desc)
                     except Exception as e:  # noqa: BLE001
@@ -552,6 +589,7 @@ async def _scenario(loop, sim, hosts, events, seed, record=None):
                     reach["at"] = None if g_[1] == "*" else set() if g_[1] == "-" else {int(x) for x in g_[1].split(",")}
                 else:
                     cache = azc.zeroconf.cache
+                    hasten.append((now_units(loop), now_units(loop) + UNIT))  # the browser hands it to the pairing after its resolve debounce
                     if zb["records"]:
                         cache.async_remove_records(zb["records"])
                         zb["records"] = []
@@ -578,13 +616,30 @@ async def _scenario(loop, sim, hosts, events, seed, record=None):
                     except Exception as e:  # noqa: BLE001
                         problems.append(("update-raised", f"the service browser callback {change.name} for {':'.join(g_)} raised {type(e).__name__}: {e}"))
 
+            bk = {"n": 0, "ref": None, "round": 0}  # back-off oracle: attempts judged so far, the last unhastened delay of the streak of failures under way, start of the round of attempts under way
+
+            def plain_failure(rec):
+                """the attempt failed, and not in a way that ends the retries or begins anew: the TCP connect was refused / given up, or
+                the accessory was scripted to spoil the pair-verify without an authentication error"""
+                if rec["out"] in ("refused", "gave-up"):
+                    return True
+                if rec["out"] != "ok" or rec["tidx"] is None or rec["tidx"] >= len(acc.order):
+                    return False
+                s_ = acc.order[rec["tidx"]]
+                return not s_.secure and s_.mode not in AUTH_MODES and s_.mode not in ("ok", "oksubdrop")
+
+            def describe_attempt(rec):
+                if rec["out"] != "ok":
+                    return {"refused": "TCP connect refused", "gave-up": "TCP connect given up"}.get(rec["out"], rec["out"])
+                return f"connection {rec['tidx']}, accessory behaviour in pair-verify: {acc.order[rec['tidx']].mode}"
+
             main_task = asyncio.current_task()
             watchdog = [None]
 
             for ei, ev in enumerate(events):
                 if watchdog[0] is not None:
                     watchdog[0].cancel()
-                watchdog[0] = loop.call_later((int(ev.split(":")[1]) / UNIT if ev.startswith("a:") else 0) + 600, main_task.cancel)
+                watchdog[0] = loop.call_later(sum(int(x.split(":")[1]) for x in ev.split("+") if x.startswith("a:")) / UNIT + 600, main_task.cancel)
                 hosts_before = list(conn.hosts)
                 t_ev0 = now_units(loop)
                 inprog_at_start = multi_step_in_progress()
@@ -605,10 +660,12 @@ async def _scenario(loop, sim, hosts, events, seed, record=None):
                     cstate["inprog"] = set()
                     for part in comp["parts"]:
                         g_ = part.split(":")
-                        if g_[0] not in (".", "e", "g", "x", "X", "c", "s", "d", "p", "r", "q", "n", "zA", "zU", "zR"):
+                        if g_[0] not in (".", "a", "e", "g", "x", "X", "c", "s", "d", "p", "r", "q", "n", "zA", "zU", "zR"):
                             raise ValueError("bad part of a composite event: " + part)
                         if part == ".":
                             await asyncio.sleep(0)  # one bare loop iteration: whatever was issued so far takes its first step
+                        elif g_[0] == "a":
+                            await asyncio.sleep(int(g_[1]) / UNIT)  # time passes; the loop is NOT run to quiescence at the new instant
                         elif g_[0] in ("e", "g"):
                             own_ = None if (len(g_) < 3 or g_[2] == "-") else int(g_[2]) / UNIT
                             if g_[0] == "g":
@@ -679,8 +736,10 @@ async def _scenario(loop, sim, hosts, events, seed, record=None):
                         harness_cancelled.add(int(f[1]))
                         t.cancel()
                 elif k == "s":
+                    hasten.append((t_ev0, t_ev0))
                     p._async_description_update(p.description)
                 elif k == "d":
+                    hasten.append((t_ev0, t_ev0))
                     p._async_description_update(description([int(x) for x in f[1].split(",")]))
                 elif k in ("x", "X"):
                     async def closer(k=k):
@@ -690,7 +749,9 @@ async def _scenario(loop, sim, hosts, events, seed, record=None):
                             close_raised.append(type(e).__name__)
                     if k == "X":
                         seen_shutdown = True
+                    resets.append(t_ev0)
                     await asyncio.ensure_future(closer())
+                    resets.append(now_units(loop))
                 elif k == "p":
                     mtok = f"p:{drop(f)}"
                 elif k in ("q", "n", "zA", "zU", "zR"):
@@ -704,9 +765,13 @@ async def _scenario(loop, sim, hosts, events, seed, record=None):
                     if record is not None:
                         # what the model is told is the class that results from the accessory's behaviour AND the controller's record
                         mtok = "v:" + effective_class(record, f[1], acc.verify_mode[-1])
+                    elif subs is not None and not subs and acc.verify_mode[-1] == "oksubdrop":
+                        # nothing to re-subscribe to: the new session makes no request for the accessory to drop it at - for the
+                        # model this pair-verify simply succeeds
+                        mtok = "v:ok"
                 else:
                     raise ValueError("bad event " + ev)
-                await settle(loop)
+                sim.iters.append(await settle(loop))
                 if unscripted and RECORDS.get(record, (None, None))[0] is not None and sim.model_upto is None:
                     # a connection used the accessory's default behaviour, which the model takes for a successful pair-verify;
                     # with this record it is not
@@ -900,6 +965,45 @@ async def _scenario(loop, sim, hosts, events, seed, record=None):
                             problems.append(("backoff-too-short", f"after {ev}: attempts at {t1 / UNIT:.4f}s and {t2 / UNIT:.4f}s with no trigger in between"))
                         if t2 - t1 > 90 * UNIT:
                             problems.append(("backoff-too-long", f"after {ev}: {((t2 - t1) / UNIT):.1f}s between consecutive attempts"))
+                # C10: attempts are separated by a GROWING delay - the lower bound, across events.  Reference: the network's own record
+                # of the attempts (when each was started, at which addresses, when it last did anything on the wire) and the harness's
+                # own actions.  A retry may follow a failed attempt at once only to move on to other addresses (its targets are a
+                # proper subset of those of an attempt that got no TCP connection, or do not include the address whose pair-verify has just failed); otherwise, unless zeroconf reported the device in between (that hastens the
+                # retry) and unless the attempt before it was a new beginning (it followed a close, the loss of a session that had come
+                # up, or an exchange the accessory may have ended with an authentication error - retries end there), the next attempt
+                # starts no earlier than 0.75 s after the failed one came to rest, and no earlier than the delay before it in the same
+                # streak of failures (up to the 60 s cap).  A caller asking for the connection - with or without its own time-out,
+                # repeatedly, cancelled - is no reason to retry early.
+                while bk["n"] < len(att_log):
+                    i_ = bk["n"]
+                    bk["n"] += 1
+                    if i_ == 0:
+                        bk["round"] = att_log[0]["t0"]
+                        continue
+                    prev_, cur_ = att_log[i_ - 1], att_log[i_]
+                    lo_, hi_ = prev_["t0"], cur_["t0"]
+                    moves_on = (set(cur_["targets"]) < set(prev_["targets"])) if prev_["out"] != "ok" else (prev_["host"] is not None and prev_["host"] not in cur_["targets"])
+                    round_t0 = bk["round"]
+                    if not moves_on:
+                        bk["round"] = cur_["t0"]
+                    if not plain_failure(prev_) or any(lo_ <= r_ <= hi_ for r_ in resets) or any(lo_ <= l_[0] <= hi_ for l_ in losses):
+                        bk["ref"] = None
+                        continue
+                    if moves_on:
+                        continue  # the same round moves on to other addresses: the remaining ones / not the one that has just failed
+                    # (a zeroconf update that arrived while the round was under way - it may carry another address list - counts as well)
+                    if any(a_ <= hi_ and b_ >= round_t0 for a_, b_ in hasten) or cur_["la_prev"] is None:
+                        bk["ref"] = None
+                        continue
+                    slept = cur_["t0"] - cur_["la_prev"]
+                    why = (f"after {ev}: the connection attempt at t={prev_['t0'] / UNIT:.4f}s (addresses {prev_['targets']}, {describe_attempt(prev_)}) came to rest at t={cur_['la_prev'] / UNIT:.4f}s; "
+                           f"the next attempt (addresses {cur_['targets']}) was started at t={cur_['t0'] / UNIT:.4f}s, only {slept / UNIT:.4f}s later, although zeroconf did not report the device, nothing was closed "
+                           f"and no session was lost in between")
+                    if slept < 6144 - 4:
+                        problems.append(("backoff-too-short", why + " (the shortest back-off is 0.75 s)"))
+                    elif bk["ref"] is not None and slept < min(bk["ref"], 60 * UNIT) - 4:
+                        problems.append(("backoff-not-growing", why + f" - the delay before it in the same streak of failed attempts was {bk['ref'] / UNIT:.4f}s: the delay shrank instead of growing"))
+                    bk["ref"] = slept
                 if new:
                     last_attempt = new[-1][0]
                 # C10: an immediate retry only moves on to another address - never the same one again at the same instant
@@ -912,7 +1016,7 @@ async def _scenario(loop, sim, hosts, events, seed, record=None):
                 for t, h, adv, ncon, tidx in new_open:
                     pc = prev_conn.get((t, adv, h))
                     prev_conn[(t, adv, h)] = (ncon, tidx)
-                    if session_mode and pc is not None and pc[0] != ncon and pc[1] < len(acc.order) and acc.order[pc[1]].secure:
+                    if (session_mode or request_callers) and pc is not None and pc[0] != ncon and pc[1] < len(acc.order) and acc.order[pc[1]].secure:
                         # (request-carrying callers) not a retry: the earlier connection carried a secure session that its connector
                         # had handed over (it finished; this attempt belongs to a NEW connector task) and that was lost at the very
                         # instant it came up - a waiting caller's request went out on it and the accessory dropped it
@@ -1445,3 +1549,134 @@ def gen_browser_histories(rng, n_random=200, grid_sample=None):
         evs += [f"a:{U}", f"a:{12 * U}", f"a:{100 * U}", f"a:{300 * U}"]
         out.append((hosts, evs, "random"))
     return out
+
+
+# --------------------------------------------------------------------------- callers that keep asking while every attempt fails
+
+POLL_PERIODS = [U // 4, U, 3 * U, 7 * U, 10 * U, 10 * U + 1, 15 * U, 30 * U, 45 * U, 61 * U]
+
+
+def _fail_script(rng, n, hosts):
+    """n scripted outcomes of connection attempts, none of which brings a session up (and none an authentication error)"""
+    r = rng.random()
+    if r < 0.3:
+        return ["t:r"] * n                                     # nothing listens
+    if r < 0.4:
+        return ["t:t"] * max(3, n // 8) + ["t:r"] * n          # packets vanish (10 s per address), then refused
+    if r < 0.55:
+        return [ver_token("fa", rng) for _ in range(n)]        # the accessory answers and spoils every pair-verify
+    out, tcp = [], []
+    for _ in range(n):
+        c = rng.random()
+        if c < 0.45:
+            tcp.append("t:r")
+        elif c < 0.5:
+            tcp.append("t:t")
+        else:
+            tcp.append(f"t:o:{rng.randrange(0, len(hosts))}")
+            out.append(ver_token(rng.choice(["fa", "fa", "fa", "fa", "wr", "wr", "ha", "ol"]), rng))
+    return tcp + out
+
+
+def gen_polling_histories(rng, n):
+    """an accessory that stays unreachable for minutes (every TCP connect refused / unanswered, every pair-verify spoilt - scripted,
+    or `n:-`: the accessory is nowhere) while callers KEEP ASKING for the connection: after a first request (a caller, a public
+    request or a zeroconf sighting) and a lead time {0, 0.3 s, 5 s, 40 s, 100 s, 300 s}, 8..70 callers arrive one per period
+    (period from 0.25 s to 61 s: faster than, as fast as and slower than the caller's bounded 10 s wait) through
+    _ensure_connected with and without their own time-out, get_characteristics or another public request; some are cancelled half
+    a period later; now and then zeroconf reports the device (same / other addresses) - the one legitimate reason to retry early -
+    and the polling goes on; at the end sometimes the accessory comes back, sometimes the pairing is closed."""
+    out = []
+    for i in range(n):
+        H = rng.choice([1, 1, 2, 3])
+        hosts = list(range(1, H + 1))
+        period = rng.choice(POLL_PERIODS)
+        polls = rng.randrange(8, 71) if period <= 15 * U else rng.randrange(8, 25)
+        nowhere = rng.random() < 0.25
+        evs = ["n:-"] if nowhere else _fail_script(rng, 90, hosts)
+        evs.append(rng.choice(["e:1:-", "e:1:-", "s", "g:1:-", "r:1:l:-", "e:1:24577"]))
+        lead = rng.choice([0, U // 3, 5 * U, 40 * U, 100 * U, 300 * U])
+        if lead:
+            evs.append(f"a:{lead}")
+        wid = 1
+        style = rng.choice(["e", "e", "e-own", "g", "r", "mixed"])
+        for _ in range(polls):
+            wid += 1
+            st = style if style != "mixed" else rng.choice(["e", "e-own", "g", "r"])
+            if st == "e":
+                evs.append(f"e:{wid}:-")
+            elif st == "e-own":
+                evs.append(f"e:{wid}:{rng.choice([U // 2 + 1, 3 * U + 1, 7 * U + 1, 20 * U + 1])}")
+            elif st == "g":
+                evs.append(f"g:{wid}:-")
+            else:
+                evs.append(f"r:{wid}:{rng.choice(REQ_APIS)}:" + ("-" if rng.random() < 0.8 else str(3 * U + 1)))
+            r = rng.random()
+            if r < 0.12:
+                evs += [f"a:{period // 2}", f"c:{wid}", f"a:{period - period // 2}"]
+            elif r < 0.17:
+                # zeroconf reports the device: a retry at once is in order, and the polling goes on
+                evs += [f"a:{period // 2}", rng.choice(["s", "s", "d:" + ",".join(map(str, sorted(rng.sample([1, 2, 3, 4], rng.randrange(1, 4)))))]), f"a:{period - period // 2}"]
+            else:
+                evs.append(f"a:{period}")
+        r = rng.random()
+        if r < 0.3:
+            evs += ["n:*" if nowhere else "s", f"a:{70 * U}", f"e:{wid + 1}:-", f"a:{12 * U}"]
+        elif r < 0.6:
+            evs += [rng.choice(["x", "x", "X"]), f"a:{70 * U}"]
+        else:
+            evs += [f"a:{130 * U}"]
+        out.append((hosts, evs, "polling-%s" % ("fast" if period < 10 * U else "slow" if period > 10 * U + 1 else "10s")))
+    return out
+
+
+# --------------------------------------------------------------------------- a close (shutdown, cancel, drop, update) in EVERY loop iteration of a connection set-up
+
+# (name, addresses, history before, the event that makes the library set a connection up - a part of the composite event)
+SWEEP_PHASES = [
+    ("first-by-caller", [1], [], "e:1:-"),
+    ("first-by-request", [1], [], "g:1:-"),
+    ("first-by-zeroconf", [1], [], "s"),
+    ("reconnect-after-accessory-close", [1], ["e:1:-"], "p:0"),
+    ("reconnect-after-reset", [1], ["s", f"a:{U}"], "p:0:r"),
+    ("retry-after-back-off", [1], ["t:r", "e:1:-"], "a:6144"),
+    ("retry-after-spoilt-verify", [1, 2], ["v:fa:close2", "s"], "a:6144"),
+    ("retry-after-drop-at-resubscription", [1], ["v:ol:oksubdrop", "e:1:-"], "a:6144"),
+    ("second-address-after-wrong-id", [1, 2], ["v:wr:wrongid"], "e:1:-"),
+    ("second-address-after-tcp-timeout", [1, 2], ["t:t", "e:1:24577"], f"a:{10 * U}"),
+    ("woken-by-zeroconf", [1], ["t:r", "t:r", "t:r", "e:1:-", f"a:{U}"], "s"),
+    ("reopened-after-close", [1], ["e:1:-", "x"], "e:1:-"),
+    ("slow-resubscription", [1], ["q:h"], "e:1:-"),
+]
+SWEEP_SUBS = [None, [[1, 9], [2, 9], [3, 9], [1, 10]], []]   # the default (1, 9); three accessories of a bridge (three requests); none
+SWEEP_ACTIONS = ["x", "X", "c:1", "p:c", "s", "x+e:9:-"]
+
+
+def gen_close_sweeps(rng, sample=None, margin=2):
+    """for every way a connection comes to be set up (SWEEP_PHASES) x every set of subscriptions to restore (SWEEP_SUBS): the
+    number N of loop iterations the set-up takes - from the event that starts it, through TCP connect, pair-verify and the
+    re-subscription of the new session, until the loop is at rest - is MEASURED on a dry run, and then each action of
+    SWEEP_ACTIONS (close, shutdown, cancel the caller, accessory drops the connection, zeroconf update, close + new request) is
+    issued after k = 0 .. N+margin bare loop iterations: in EVERY iteration of the window, in particular in each one between the
+    accessory's last pair-verify reply and the end of the re-subscription.  Followed by long quiet periods (2 units, 12 s, 100 s,
+    300 s), sometimes a new caller and a close.  `sample`: the close sweeps with the default subscription are kept in full, the
+    rest is sampled down to that many histories."""
+    core, rest = [], []
+    for name, hosts, pre, trig in SWEEP_PHASES:
+        for si, subs in enumerate(SWEEP_SUBS):
+            try:
+                dry = run_scenario(hosts, list(pre) + [trig], seed=1, subs=subs)
+                n_iter = dry.iters[len(pre)]
+            except Exception:  # noqa: BLE001
+                n_iter = 12
+            for act in SWEEP_ACTIONS:
+                for k in range(0, min(n_iter, 60) + margin + 1):
+                    tail = ["a:2", f"a:{12 * U}"] + (["q:a"] if "q:h" in pre and rng.random() < 0.7 else []) + [f"a:{100 * U}", f"a:{300 * U}"]
+                    if rng.random() < 0.3:
+                        tail += ["e:99:-", f"a:{12 * U}", rng.choice(["x", "X"]), f"a:{12 * U}"]
+                    evs = list(pre) + ["+".join([trig] + ["."] * k + [act])] + tail
+                    tup = (list(hosts), evs, "sweep", {"subs": subs, "sweep": {"phase": name, "offset": k, "action": act, "window": n_iter}})
+                    (core if act == "x" and si == 0 else rest).append(tup)
+    if sample is not None and len(rest) > sample:
+        rest = rng.sample(rest, sample)
+    return core + rest
